@@ -55,6 +55,29 @@ pub open spec fn ueq_seq(a: Seq<Unifiable>, b: Seq<Unifiable>) -> bool
     a.len() == b.len() && (a.len() == 0 || (ueq(a[0], b[0]) && ueq_seq(a.drop_first(), b.drop_first())))
 }
 
+// structural equality is symmetric (IEEE `==` is: spec/std_eq.rs) - `a == b` and `b == a` are the same test
+pub proof fn lemma_ueq_sym(a: Unifiable, b: Unifiable)
+    ensures ueq(a, b) == ueq(b, a),
+    decreases a,
+{
+    match (a, b) {
+        (Unifiable::SComplex(t1), Unifiable::SComplex(t2)) => { lemma_ueq_seq_sym(t1@, t2@); },
+        (Unifiable::SLinkedList{term: t1, next: n1, count: c1, tail_var: tv1},
+         Unifiable::SLinkedList{term: t2, next: n2, count: c2, tail_var: tv2}) => { lemma_ueq_sym(*t1, *t2); lemma_ueq_sym(*n1, *n2); },
+        (Unifiable::SFunction{name: f1, terms: t1}, Unifiable::SFunction{name: f2, terms: t2}) => { lemma_ueq_seq_sym(t1@, t2@); },
+        _ => {},
+    }
+}
+pub proof fn lemma_ueq_seq_sym(a: Seq<Unifiable>, b: Seq<Unifiable>)
+    ensures ueq_seq(a, b) == ueq_seq(b, a),
+    decreases a,
+{
+    if a.len() == b.len() && a.len() > 0 {
+        lemma_ueq_sym(a[0], b[0]);
+        lemma_ueq_seq_sym(a.drop_first(), b.drop_first());
+    }
+}
+
 // TRUSTED(T1): rustc's derived PartialEq on Unifiable computes `ueq`.
 impl vstd::std_specs::cmp::PartialEqSpecImpl for Unifiable {
     open spec fn obeys_eq_spec() -> bool { true }
